@@ -331,9 +331,14 @@ class WorkQueue:
         cancel_awaitables: list[Awaitable[Any]],
     ) -> None:
         """Cancel a task with the streams produced by it."""
+        # the cancelled future must have settled as well before the
+        # cancellation counts as complete
+        pending_future = task.computation.pending_future
         abort_result = task.computation.abort(reason)
         if is_awaitable(abort_result):
             cancel_awaitables.append(abort_result)
+        if pending_future is not None:
+            cancel_awaitables.append(pending_future)
         task_node = self._task_nodes.get(task)
         if task_node:
             for child_stream in task_node.child_streams:
